@@ -24,7 +24,13 @@ func validScript(r *prng.R) string {
 		n.Body = append(n.Body, g.body(0, 1+r.Intn(5))...)
 		nodes = append(nodes, n)
 	}
-	return RandomLayout(r).Render(nodes)
+	text := RandomLayout(r).Render(nodes)
+	if r.Intn(8) == 0 {
+		// something indented after the last node that the grammar lets pass (the parser stops after the last ===): whatever a
+		// lexer remembers about it must not reach the next script
+		text += r.Pick("    #end-of-file\n", "\t#x\n", "        #a\n    #b\n", "  #t")
+	}
+	return text
 }
 
 func mutate(r *prng.R, s string) string {
